@@ -135,18 +135,28 @@ type sessRun struct {
 }
 
 type outMsg struct {
-	at time.Duration
-	mt string
+	at  time.Duration
+	mt  string
+	raw []byte
 }
 
 func newSess(side int) *sessRun {
+	return newSessWith(side, true, "35=A\x0149=P\x0156=M\x0134=1\x0152=20240101-00:00:00.000\x0198=0\x01108=1\x01")
+}
+
+func newSessWith(side int, approve bool, logon string) *sessRun {
 	store := memory.NewStorage()
 	sr := &sessRun{}
 	var err error
 	if side == 0 {
 		sr.h = simplefixgo.NewAcceptorHandler(context.Background(), "35", 64)
 		sr.s, err = session.NewAcceptorSession(opts(), sr.h, &session.LogonSettings{LogonTimeout: time.Second, HeartBtLimits: &session.IntLimits{Min: 1, Max: 60}},
-			func(*session.LogonSettings) error { return nil }, store, store)
+			func(*session.LogonSettings) error {
+				if approve {
+					return nil
+				}
+				return fmt.Errorf("refused")
+			}, store, store)
 	} else {
 		sr.h = simplefixgo.NewInitiatorHandler(context.Background(), "35", 64)
 		sr.s, err = session.NewInitiatorSession(sr.h, opts(), &session.LogonSettings{HeartBtInt: 1, EncryptMethod: "0", SenderCompID: "C", TargetCompID: "S"}, store, store)
@@ -169,7 +179,7 @@ func newSess(side int) *sessRun {
 			select {
 			case m := <-sr.h.Outgoing():
 				sr.mu.Lock()
-				sr.outs = append(sr.outs, outMsg{time.Since(sr.t0), field(m, "35")})
+				sr.outs = append(sr.outs, outMsg{time.Since(sr.t0), field(m, "35"), m})
 				sr.mu.Unlock()
 			case <-sr.h.Context().Done():
 				return
@@ -177,7 +187,7 @@ func newSess(side int) *sessRun {
 		}
 	}()
 	sr.t0 = time.Now()
-	sr.h.ServeIncoming(frame("35=A\x0149=P\x0156=M\x0134=1\x0152=20240101-00:00:00.000\x0198=0\x01108=1\x01"))
+	sr.h.ServeIncoming(frame(logon))
 	time.Sleep(5 * time.Millisecond)
 	return sr
 }
@@ -234,10 +244,39 @@ func hbCase(r *rand.Rand, o *hout.Out) {
 	time.Sleep(time.Until(sr.t0.Add(dur)))
 	close(stop)
 	outs, _ := sr.snapshot()
+	// C10: ask for everything sent so far again; each retransmission must be byte-identical to the first transmission
+	sr.h.ServeIncoming(frame("35=2\x0149=P\x0156=M\x0134=50\x0152=20240101-00:00:00.000\x017=1\x0116=0\x01"))
+	time.Sleep(150 * time.Millisecond)
+	after, _ := sr.snapshot()
 	sr.h.Stop()
 	mu.Lock()
 	defer mu.Unlock()
 	desc := fmt.Sprintf("side=%d sends=%v", side, sends)
+	first := map[string][]byte{}
+	for _, m := range outs {
+		if _, ok := first[field(m.raw, "34")]; !ok {
+			first[field(m.raw, "34")] = m.raw
+		}
+	}
+	resent := after[len(outs):]
+	var gotSeqs, wantSeqs []int
+	for _, m := range resent {
+		q := field(m.raw, "34")
+		n, _ := strconv.Atoi(q)
+		gotSeqs = append(gotSeqs, n)
+		if orig, ok := first[q]; ok && !bytes.Equal(orig, m.raw) {
+			o.Fail("C10", "retransmission-differs", fmt.Sprintf("%s: seq %s first sent as %q, retransmitted as %q", desc, q, orig, m.raw))
+		}
+	}
+	for q := range first {
+		n, _ := strconv.Atoi(q)
+		wantSeqs = append(wantSeqs, n)
+	}
+	sort.Ints(wantSeqs)
+	if fmt.Sprint(gotSeqs) != fmt.Sprint(wantSeqs) {
+		o.Fail("C10", "retransmission-not-exact", fmt.Sprintf("%s: ResendRequest 1..0 after sending %v was answered with sequence numbers %v", desc, wantSeqs, gotSeqs))
+	}
+	o.Nontrivial("C10", desc)
 	o.Count("hb.scenarios")
 	o.Nontrivial("C08", desc)
 	var prev time.Duration = -1
@@ -282,10 +321,14 @@ func probeCase(r *rand.Rand, o *hout.Out) {
 		dur = 5 * time.Second
 	}
 	q := 2
+	echoWanted := 0
 	for _, at := range inbound {
 		time.Sleep(time.Until(sr.t0.Add(at)))
 		mt := []string{"0", "V", "1"}[r.Intn(3)]
-		sr.h.ServeIncoming(frame(fmt.Sprintf("35=%s\x0149=P\x0156=M\x0134=%d\x0152=20240101-00:00:00.000\x01112=a\x01", mt, q)))
+		if mt == "1" {
+			echoWanted++
+		}
+		sr.h.ServeIncoming(frame(fmt.Sprintf("35=%s\x0149=P\x0156=M\x0134=%d\x0152=20240101-00:00:00.000\x01112=echo%d\x01", mt, q, q)))
 		q++
 	}
 	time.Sleep(time.Until(sr.t0.Add(dur)))
@@ -299,10 +342,21 @@ func probeCase(r *rand.Rand, o *hout.Out) {
 	o.Count(fmt.Sprintf("probe.kind=%d", kind))
 	o.Nontrivial("C09", desc)
 	var probes []time.Duration
+	echoes := 0
 	for _, m := range outs {
 		if m.mt == "1" {
 			probes = append(probes, m.at)
 		}
+		if m.mt == "0" && strings.HasPrefix(field(m.raw, "112"), "echo") {
+			echoes++
+		}
+	}
+	// C14: every TestRequest of the peer — also one arriving while our own probe is pending — is echoed once
+	if echoes != echoWanted {
+		o.Fail("C14", "testrequest-not-echoed", fmt.Sprintf("%s: %d TestRequests sent, %d Heartbeat echoes received; outs=%v", desc, echoWanted, echoes, outs))
+	}
+	if echoWanted > 0 {
+		o.Nontrivial("C14", desc)
 	}
 	o.Sample("C09", fmt.Sprintf("%s -> probes at %v, disconnect at %v", desc, probes, disc))
 	within := func(x, lo, hi time.Duration) bool { return x >= lo && x <= hi }
@@ -338,6 +392,46 @@ func probeCase(r *rand.Rand, o *hout.Out) {
 	}
 }
 
+// C07: a refused Logon (callback refusal, disallowed encryption, interval out of range) and then time passing:
+// nothing but Logon / Logout / Reject may be sent, however long the connection stays open
+func preauthCase(r *rand.Rand, o *hout.Out) {
+	kind := r.Intn(3)
+	logon := "35=A\x0149=P\x0156=M\x0134=1\x0152=20240101-00:00:00.000\x0198=0\x01108=1\x01"
+	approve := true
+	switch kind {
+	case 0:
+		approve = false
+	case 1:
+		logon = "35=A\x0149=P\x0156=M\x0134=1\x0152=20240101-00:00:00.000\x0198=1\x01108=1\x01"
+	default:
+		logon = "35=A\x0149=P\x0156=M\x0134=1\x0152=20240101-00:00:00.000\x0198=0\x01108=99\x01"
+	}
+	sr := newSessWith(0, approve, logon)
+	time.Sleep(1300 * time.Millisecond)
+	sr.h.ServeIncoming(frame("35=1\x0149=P\x0156=M\x0134=2\x0152=20240101-00:00:00.000\x01112=x\x01"))
+	time.Sleep(1200 * time.Millisecond)
+	sr.h.ServeIncoming(frame("35=2\x0149=P\x0156=M\x0134=3\x0152=20240101-00:00:00.000\x017=1\x0116=0\x01"))
+	time.Sleep(100 * time.Millisecond)
+	outs, _ := sr.snapshot()
+	logged := sr.s.IsLogged()
+	sr.h.Stop()
+	mu.Lock()
+	defer mu.Unlock()
+	desc := fmt.Sprintf("refused logon kind=%d", kind)
+	o.Nontrivial("C07", desc)
+	o.Nontrivial("C06", desc)
+	for _, m := range outs {
+		if m.mt != "3" && m.mt != "5" && m.mt != "A" {
+			o.Fail("C07", "pre-logon-output", fmt.Sprintf("%s: message of type %s sent %v after the refused Logon; outs=%v", desc, m.mt, m.at, outs))
+			break
+		}
+	}
+	if logged {
+		o.Fail("C06", "logged-on-without-acceptable-logon", fmt.Sprintf("%s: IsLogged() after %v", desc, 2600*time.Millisecond))
+	}
+	o.Sample("C07", fmt.Sprintf("%s -> %v", desc, outs))
+}
+
 func main() {
 	flag.Parse()
 	if *out == "" {
@@ -349,7 +443,9 @@ func main() {
 	var wg sync.WaitGroup
 	for i := 0; i < *n; i++ {
 		rr := rand.New(rand.NewSource(r.Int63()))
-		wg.Add(3)
+		wg.Add(4)
+		rr4 := rand.New(rand.NewSource(r.Int63()))
+		go func() { defer wg.Done(); preauthCase(rr4, o) }()
 		go func() { defer wg.Done(); hbCase(rr, o) }()
 		rr2 := rand.New(rand.NewSource(r.Int63()))
 		go func() { defer wg.Done(); probeCase(rr2, o) }()
